@@ -250,6 +250,8 @@ def gen_pool_scenario(rng: SimRng, key, mode, max_n=24):
         "return_utilities": g.chance(0.5),
         "prefit": g.chance(0.2),
     }
+    if e["flags"].get("batch1"):
+        sc["batch_size"] = 1
     return sc
 
 
@@ -359,8 +361,8 @@ class C14Check(PoolCheckBase):
     tiers = {"quick": {"runs": 4500, "wall_cap": 600, "chunk": 10}, "thorough": {"runs": 90000, "wall_cap": 3300, "chunk": 25}}
 
     def generate(self, rng: SimRng):
-        key = pick_entry(rng.fork("entry"))
-        sc = gen_pool_scenario(rng, key, "C14")
+        key = pick_entry(rng.fork("entry"), pred=lambda e: not e["flags"].get("no14"))
+        sc = gen_pool_scenario(rng, key, "C14", max_n=40 if self.tier == "thorough" else 24)
         sc["prefit"] = False  # the *standard* loop: default fit flags (fit_*=False is exercised by C05)
         return sc
 
@@ -515,7 +517,7 @@ class C05Check(PoolCheckBase):
         d = len(sc["X"][0])
         ops = []
         for _ in range(g.pick([2, 3, 4, 6])):
-            op = {"label": g.chance(0.6), "batch": g.pick([1, 1, 2, 3]), "prefit": g.chance(0.3) and not e["flags"].get("noprefit"), "ru": g.chance(0.5)}
+            op = {"label": g.chance(0.6), "batch": 1 if e["flags"].get("batch1") else g.pick([1, 1, 2, 3]), "prefit": g.chance(0.3) and not e["flags"].get("noprefit"), "ru": g.chance(0.5)}
             if "sample_weight" in ps and g.chance(0.4):
                 op["sw"] = [round(g.uniform(0.1, 2.0), 3) for _ in range(n)]
             if "utility_weight" in ps and g.chance(0.4):
@@ -721,7 +723,7 @@ class C06Check(PoolCheckBase):
         "matter (ties / duplicated points / clustering strategy / random subject). Distinct by (workload kind, subject, actor fault kinds, probe set)."
     )
     fault_kinds = ["global_rng_reseed", "global_rng_draws", "global_rng_draws_during_call"]
-    probes_expected = ["global_rng_consumed_by_library", "tie_or_duplicates", "repeat_compared", "twin_compared", "stream_twin", "estimator_twin"]
+    probes_expected = ["global_rng_consumed_by_library", "tie_or_duplicates", "repeat_compared", "twin_compared", "stream_twin", "crowd_twin", "estimator_twin"]
     assumptions = [
         "every estimator supplied by the simulated caller carries an integer seed, so remaining dependence on the global generator originates in library code or in helpers it constructs itself",
         "consumption of the global generator by the library is only a probe steering the search, never a verdict (third-party estimators such as SVR draw an unused seed)",
@@ -738,7 +740,17 @@ class C06Check(PoolCheckBase):
             sc["prefit"] = False
             sc["return_utilities"] = True
             sc["max_cycles"] = g.pick([1, 2, 4])
-        elif r < 0.85:
+        elif r < 0.78:
+            from . import crowdsim as CS
+
+            sc = CS.C07Check().generate(rng.fork("crowd"))
+            sc["engine"] = "poolsim"
+            sc["mode"] = "C06"
+            sc["workload"] = "crowd"
+            sc["cycles"] = sc["cycles"][:3]
+            if g.chance(0.4):
+                sc["seed"] = {"rs": sc["seed"]}
+        elif r < 0.88:
             from . import streamsim as S
 
             c3 = S.C03Check()
@@ -807,6 +819,45 @@ class C06Check(PoolCheckBase):
         if actor.during:
             ctx.fault("global_rng_draws_during_call", actor.during)
 
+    def _crowd_world(self, sc, plan, ctx, record):
+        from . import crowdsim as CS
+
+        actor = Actor(plan)
+        chk = CS.C07Check()
+        sc2 = dict(sc, seed=mk_seed(sc["seed"]))
+        qs, kw = chk._strategy(sc2)
+        X = np.array(sc["X"], dtype=float)
+        y = CS.y_matrix(sc["y0"])
+        n, na = y.shape
+        for t, cyc in enumerate(sc["cycles"]):
+            cand_arg, ann_arg, A, rows = chk.availability(cyc, y, n, na)
+            if A.sum() == 0:
+                continue
+            call = dict(kw)
+            if cyc["cand"] == "rows":
+                call["candidates"] = X[rows].copy()
+            elif cand_arg is not None:
+                call["candidates"] = cand_arg
+            if ann_arg is not None:
+                call["annotators"] = ann_arg
+            call["batch_size"] = int(cyc["batch_size"])
+            call["return_utilities"] = True
+            for rep in ("query", "repeat"):
+                actor.before_call(ctx)
+                try:
+                    idx, ut = qs.query(X, y.copy(), **call)
+                    record.append((rep, t, (np.asarray(idx), np.asarray(ut, dtype=float))))
+                except Exception as ex:
+                    record.append((rep, t, {"exc": type(ex).__name__}))
+                    idx = None
+            if idx is None:
+                return
+            for p in np.asarray(idx).tolist():
+                srow = p[0] if cyc["cand"] != "rows" else int(rows[p[0]])
+                if 0 <= srow < n and 0 <= p[1] < na:
+                    y[srow, p[1]] = sc["truth"][srow][p[1]]
+            ctx.sim_time += 1
+
     def _stream_world(self, sc, plan, ctx, record):
         from . import streamsim as S
 
@@ -868,6 +919,14 @@ class C06Check(PoolCheckBase):
                     ctx.probe("tie_or_duplicates")
                 if R.ENTRIES[sc["entry"]]["flags"].get("clusterer"):
                     ctx.probe("internal_clusterer")
+            elif kind == "crowd":
+                subj = "IntervalEstimationThreshold" if sc["subject"] == "IntervalEstimationThreshold" else "SingleAnnotatorWrapper"
+                cond = {"seed_kind": "instance" if isinstance(sc["seed"], dict) else "int"}
+                np.random.seed(base)
+                self._crowd_world(sc, sc["actor_a"], ctx, rec_a)
+                np.random.seed((base + 1) % (2**32))
+                self._crowd_world(sc, sc["actor_b"], ctx, rec_b)
+                ctx.probe("crowd_twin")
             elif kind == "stream":
                 from . import streamsim as S
 
@@ -906,7 +965,7 @@ class C06Check(PoolCheckBase):
         else:
             if len(rec_a) != len(rec_b):
                 ctx.violate("twin-divergence", subj, f"worlds produced {len(rec_a)} vs {len(rec_b)} observations", cond)
-        if kind == "pool" and not ctx.violations:
+        if kind in ("pool", "crowd") and not ctx.violations:
             for rec in (rec_a,):
                 byc = {}
                 for op, cyc, val in rec:
@@ -923,7 +982,7 @@ class C06Check(PoolCheckBase):
     def nontrivial(self, res):
         f = res["faults"]
         p = res["probes"]
-        return sum(f.values()) >= 2 and (p.get("tie_or_duplicates", 0) or p.get("internal_clusterer", 0) or p.get("stream_twin", 0) or p.get("estimator_twin", 0) or p.get("global_rng_consumed_by_library", 0)) > 0
+        return sum(f.values()) >= 2 and (p.get("tie_or_duplicates", 0) or p.get("internal_clusterer", 0) or p.get("stream_twin", 0) or p.get("crowd_twin", 0) or p.get("estimator_twin", 0) or p.get("global_rng_consumed_by_library", 0)) > 0
 
     def shrink(self, sc):
         if sc["workload"] == "pool":
@@ -938,6 +997,11 @@ class C06Check(PoolCheckBase):
                         c[k][f] = 0
                         yield c
             yield from shrink_pool(sc)
+        elif sc["workload"] == "crowd":
+            from . import crowdsim as CS
+
+            for c in CS.C07Check().shrink(sc):
+                yield c
         elif sc["workload"] == "stream":
             from . import streamsim as S
 
